@@ -513,3 +513,128 @@ package eventlogger
 //@   ensures unlocked: noLocksHeld()
 //@   ensures C04/single-critical-section: acquisitions(b.lock) <= old(acquisitions(b.lock)) + 1
 //@   loop 1 invariant noLocksHeld() && calls("Closer.Close") <= entry(calls("Closer.Close")) + produced()
+
+// ---- Event format table (C14, C19) ----
+//@ type Event guarded_by l: Formatted
+
+//@ func (*Event).FormattedAs(formatType, formattedValue)
+//@   requires e != nil && held(e.l) == 0
+//@   assigns Event.Formatted, map:map[string][]byte, held, lockacq
+//@   ensures C14/last-writer-wins: e.Formatted != nil && (formatType in e.Formatted) && e.Formatted[formatType] == formattedValue
+//@   ensures C14/other-formats-kept: forall k string :: k != formatType && old(e.Formatted) != nil ==> (k in e.Formatted) == old(k in e.Formatted) && e.Formatted[k] == old(e.Formatted[k])
+//@   ensures unlocked: unchanged("held")
+
+//@ func (*Event).Format(formatType) (val, ok)
+//@   requires e != nil && held(e.l) == 0
+//@   assigns held, lockacq
+//@   ensures C13+C14/reads-the-table: ok == (e.Formatted != nil && (formatType in e.Formatted)) && (ok ==> val == e.Formatted[formatType]) && (!ok ==> len(val) == 0)
+//@   ensures unlocked: unchanged("held")
+
+// ---- FileSink (C08, C13, C15) ----
+// Trace events: "sys:mkdirall" a0=path a1=mode a5/a6=err; "sys:openfile" a0=path a1=flags a2=mode a5=file a6/a7=err;
+// "sys:chmod" a0=path a1=mode; "sys:close" a0=file a5/a6=err; "sys:rename" a0=old a1=new a5/a6=err;
+// "sys:glob" a0=pattern a5=array a6=offset a7=length (the error is not recorded); "sys:remove" a0=path a5/a6=err;
+// "sys:write" a0=writer a1=array a2=offset a3=length a4=writer type a5=n a6/a7=err.
+//@ type FileSink guarded_by l: f, BytesWritten, LastCreated
+//@ type FileSink immutable Path, FileName, Mode, MaxBytes, MaxFiles, MaxDuration, Format, TimestampOnlyOnRotate
+
+//@ pure specialPath(fs *FileSink) bool = fs.Path == "/dev/stdout" || fs.Path == "/dev/stderr" || fs.Path == "/dev/null"
+//@ pure fileExt(fs *FileSink) string = (uf("filepath.Ext", fs.FileName) == "") ? ".log" : uf("filepath.Ext", fs.FileName)
+//@ pure filePattern(fs *FileSink) string = strcat(strcat(uf("strings.TrimSuffix", fs.FileName, fileExt(fs)), "-%s"), fileExt(fs))
+
+//@ func (*FileSink).rotateEnabled() (b)
+//@   requires fs != nil
+//@   pureeffect
+//@   ensures C15/enabled-iff-a-limit-is-set: b == (fs.MaxBytes > 0 || fs.MaxDuration != 0)
+
+//@ func (*FileSink).fileNamePattern() (s)
+//@   requires fs != nil
+//@   pureeffect
+//@   ensures C15/base-name-dash-timestamp-extension: s == filePattern(fs)
+
+//@ func (*FileSink).newFileName(createTime) (s)
+//@   requires fs != nil
+//@   pureeffect
+//@   ensures C15/plain-name-in-timestamp-only-mode-or-without-rotation: (fs.TimestampOnlyOnRotate || !(fs.MaxBytes > 0 || fs.MaxDuration != 0)) ==> s == fs.FileName
+//@   ensures C15/timestamped-name-otherwise: !(fs.TimestampOnlyOnRotate || !(fs.MaxBytes > 0 || fs.MaxDuration != 0)) ==> s == sprintf1(filePattern(fs), uf("strconv.FormatInt", uf("time.UnixNano", createTime), 10))
+
+//@ func (*FileSink).open() (err)
+//@   requires fs != nil && held(fs.l) == 2
+//@   assigns FileSink.f, FileSink.BytesWritten, box:time.Time, ev, ctxdone, elem:any, elem:string
+//@   ensures C15/nothing-to-do-when-open-or-special: (specialPath(fs) || old(fs.f) != nil) ==> err == nil && ev_n == old(ev_n) && fs.f == old(fs.f) && fs.BytesWritten == old(fs.BytesWritten) && fs.LastCreated == old(fs.LastCreated)
+//@   ensures C15/directory-created-on-demand: !(specialPath(fs) || old(fs.f) != nil) ==> ev_n > old(ev_n) && ev_kind(old(ev_n)) == "sys:mkdirall" && ev_a(old(ev_n), 0) == fs.Path && ev_a(old(ev_n), 1) == 448
+//@   ensures C15/mkdir-failure-opens-nothing: !(specialPath(fs) || old(fs.f) != nil) && ev_a(old(ev_n), 5) != 0 ==> err != nil && ev_n == old(ev_n) + 1 && fs.f == nil && fs.BytesWritten == old(fs.BytesWritten) && fs.LastCreated == old(fs.LastCreated)
+//@   ensures C08+C15/file-opened-for-append-with-configured-mode: !(specialPath(fs) || old(fs.f) != nil) && ev_a(old(ev_n), 5) == 0 ==> ev_n >= old(ev_n) + 2 && ev_kind(old(ev_n) + 1) == "sys:openfile" && ev_a(old(ev_n) + 1, 1) == 1089 && ev_a(old(ev_n) + 1, 2) == ((fs.Mode == 0) ? 384 : fs.Mode) && (fs.TimestampOnlyOnRotate || !(fs.MaxBytes > 0 || fs.MaxDuration != 0) ==> ev_a(old(ev_n) + 1, 0) == uf("filepath.Join2", fs.Path, fs.FileName))
+//@   ensures C15/open-failure: !(specialPath(fs) || old(fs.f) != nil) && ev_a(old(ev_n), 5) == 0 && ev_a(old(ev_n) + 1, 6) != 0 ==> err != nil && ev_n == old(ev_n) + 2 && fs.f == nil && fs.BytesWritten == old(fs.BytesWritten) && fs.LastCreated == old(fs.LastCreated)
+//@   ensures C15/chmod-iff-mode-configured: !(specialPath(fs) || old(fs.f) != nil) && ev_a(old(ev_n), 5) == 0 && ev_a(old(ev_n) + 1, 6) == 0 ==> fs.f == ev_a(old(ev_n) + 1, 5) && fs.f != nil && ((fs.Mode == 0) ==> ev_n == old(ev_n) + 2) && ((fs.Mode != 0) ==> ev_n == old(ev_n) + 3 && ev_kind(old(ev_n) + 2) == "sys:chmod" && ev_a(old(ev_n) + 2, 0) == ev_a(old(ev_n) + 1, 0) && ev_a(old(ev_n) + 2, 1) == fs.Mode)
+//@   ensures C15/counters-reset-for-the-new-file: err == nil && !(specialPath(fs) || old(fs.f) != nil) ==> fs.f != nil && fs.BytesWritten == 0
+//@   ensures C15/failure-keeps-counters: err != nil ==> fs.BytesWritten == old(fs.BytesWritten) && fs.LastCreated == old(fs.LastCreated)
+//@   ensures C08/only-these-effects: forall i int :: old(ev_n) <= i && i < ev_n ==> ev_kind(i) == "sys:mkdirall" || ev_kind(i) == "sys:openfile" || ev_kind(i) == "sys:chmod"
+//@   ensures other-sinks-untouched: forall o *FileSink :: o != fs ==> o.f == old(o.f) && o.BytesWritten == old(o.BytesWritten)
+//@   ensures counter-stays-nonnegative: old(fs.BytesWritten) >= 0 ==> fs.BytesWritten >= 0
+//@   ensures C08/writes-nothing: events("sys:write") == old(events("sys:write"))
+//@   ensures still-locked: held(fs.l) == 2
+
+//@ pure sortedListing(a ref, o int, k int) string = strAt(a, o, k)
+
+//@ func (*FileSink).pruneFiles() (err)
+//@   requires fs != nil && held(fs.l) == 2 && fs.MaxFiles >= 0
+//@   assigns ev, ctxdone, elem:string, elem:any
+//@   ensures C15/no-pruning-without-a-limit: (specialPath(fs) || fs.MaxFiles == 0) ==> err == nil && ev_n == old(ev_n)
+//@   ensures C15/lists-only-its-own-rotated-files: !(specialPath(fs) || fs.MaxFiles == 0) ==> ev_n > old(ev_n) && ev_kind(old(ev_n)) == "sys:glob" && ev_a(old(ev_n), 0) == uf("filepath.Join2", fs.Path, sprintf1(filePattern(fs), "*"))
+//@   ensures C15/keeps-the-newest-max-files: !(specialPath(fs) || fs.MaxFiles == 0) && err == nil ==> ev_n == old(ev_n) + 1 + ((ev_a(old(ev_n), 7) > fs.MaxFiles) ? (ev_a(old(ev_n), 7) - fs.MaxFiles) : 0)
+//@   ensures C15/removes-oldest-first-from-the-listing: forall i int :: old(ev_n) < i && i < ev_n ==> ev_kind(i) == "sys:remove" && ev_a(i, 0) == sortedListing(ev_a(old(ev_n), 5), ev_a(old(ev_n), 6), i - old(ev_n) - 1)
+//@   ensures C08/writes-nothing: events("sys:write") == old(events("sys:write"))
+//@   ensures still-locked: held(fs.l) == 2
+//@   loop 1 invariant held(fs.l) == 2 && 0 <= i && stale == len(matches) - fs.MaxFiles && ev_n == old(ev_n) + 1 + i && ev_kind(old(ev_n)) == "sys:glob" && ev_a(old(ev_n), 0) == uf("filepath.Join2", fs.Path, sprintf1(filePattern(fs), "*")) && ev_a(old(ev_n), 5) == arr(matches) && ev_a(old(ev_n), 6) == 0 && ev_a(old(ev_n), 7) == len(matches) && (i > 0 ==> i <= stale)
+//@   loop 1 invariant forall j int :: old(ev_n) < j && j < ev_n ==> ev_kind(j) == "sys:remove" && ev_a(j, 0) == matches[j - old(ev_n) - 1]
+
+//@ pure sizeLimitReached(fs *FileSink) bool = fs.MaxBytes > 0 && fs.BytesWritten >= fs.MaxBytes
+
+//@ func (*FileSink).rotate() (err)
+//@   requires fs != nil && held(fs.l) == 2 && fs.MaxFiles >= 0 && (!specialPath(fs) ==> fs.f != nil)
+//@   assigns FileSink.f, FileSink.BytesWritten, box:time.Time, ev, ctxdone, elem:any, elem:string
+//@   ensures C15/special-paths-never-rotate: specialPath(fs) ==> err == nil && ev_n == old(ev_n)
+//@   ensures C15/no-rotation-unless-a-limit-is-due: !old(sizeLimitReached(fs)) && fs.MaxDuration <= 0 ==> err == nil && ev_n == old(ev_n) && fs.f == old(fs.f) && fs.BytesWritten == old(fs.BytesWritten) && fs.LastCreated == old(fs.LastCreated)
+//@   ensures C15/rotates-when-the-size-limit-is-reached: !specialPath(fs) && old(sizeLimitReached(fs)) ==> ev_n > old(ev_n)
+//@   ensures C08+C15/rotation-closes-the-active-file-first: ev_n > old(ev_n) ==> ev_kind(old(ev_n)) == "sys:close" && ev_a(old(ev_n), 0) == old(fs.f) && (ev_a(old(ev_n), 5) != 0 ==> err != nil && ev_n == old(ev_n) + 1 && fs.f == old(fs.f) && fs.BytesWritten == old(fs.BytesWritten))
+//@   ensures C15/timestamp-only-mode-renames-the-plain-file-before-pruning: ev_n > old(ev_n) && ev_a(old(ev_n), 5) == 0 && fs.TimestampOnlyOnRotate ==> ev_n >= old(ev_n) + 2 && ev_kind(old(ev_n) + 1) == "sys:rename" && ev_a(old(ev_n) + 1, 0) == uf("filepath.Join2", fs.Path, fs.FileName) && (exists ts int :: ev_a(old(ev_n) + 1, 1) == uf("filepath.Join2", fs.Path, sprintf1(filePattern(fs), uf("strconv.FormatInt", uf("time.UnixNano", ts), 10)))) && (ev_a(old(ev_n) + 1, 5) != 0 ==> err != nil && ev_n == old(ev_n) + 2)
+//@   ensures C15/other-modes-never-rename: !fs.TimestampOnlyOnRotate ==> (forall i int :: old(ev_n) <= i && i < ev_n ==> ev_kind(i) != "sys:rename")
+//@   ensures C08/only-these-effects: forall i int :: old(ev_n) <= i && i < ev_n ==> ev_kind(i) == "sys:close" || ev_kind(i) == "sys:rename" || ev_kind(i) == "sys:glob" || ev_kind(i) == "sys:remove" || ev_kind(i) == "sys:mkdirall" || ev_kind(i) == "sys:openfile" || ev_kind(i) == "sys:chmod"
+//@   ensures C15/success-leaves-an-open-file: err == nil && !specialPath(fs) ==> fs.f != nil && (ev_n > old(ev_n) ==> fs.BytesWritten == 0)
+//@   ensures other-sinks-untouched: forall o *FileSink :: o != fs ==> o.f == old(o.f) && o.BytesWritten == old(o.BytesWritten)
+//@   ensures counter-stays-nonnegative: old(fs.BytesWritten) >= 0 ==> fs.BytesWritten >= 0
+//@   ensures C08/writes-nothing: events("sys:write") == old(events("sys:write"))
+//@   ensures still-locked: held(fs.l) == 2
+
+//@ func (*FileSink).reopen() (err)
+//@   requires fs != nil && held(fs.l) == 2
+//@   assigns FileSink.f, FileSink.BytesWritten, box:time.Time, ev, ctxdone, elem:any, elem:string
+//@   ensures C15/special-paths-are-not-reopened: specialPath(fs) ==> err == nil && ev_n == old(ev_n) && fs.f == old(fs.f)
+//@   ensures C08/success-leaves-an-open-file: err == nil && !specialPath(fs) ==> fs.f != nil
+//@   ensures C08/only-these-effects: forall i int :: old(ev_n) <= i && i < ev_n ==> ev_kind(i) == "sys:stat" || ev_kind(i) == "sys:close" || ev_kind(i) == "sys:mkdirall" || ev_kind(i) == "sys:openfile" || ev_kind(i) == "sys:chmod"
+//@   ensures C15/a-new-file-starts-with-fresh-counters: err == nil && !specialPath(fs) ==> fs.BytesWritten == 0
+//@   ensures other-sinks-untouched: forall o *FileSink :: o != fs ==> o.f == old(o.f) && o.BytesWritten == old(o.BytesWritten)
+//@   ensures counter-stays-nonnegative: old(fs.BytesWritten) >= 0 ==> fs.BytesWritten >= 0
+//@   ensures C08/writes-nothing: events("sys:write") == old(events("sys:write"))
+//@   ensures still-locked: held(fs.l) == 2
+
+//@ func (*FileSink).Reopen() (err)
+//@   requires fs != nil && held(fs.l) == 0
+//@   ensures C15/special-paths-are-not-reopened: specialPath(fs) ==> err == nil && ev_n == old(ev_n) && fs.f == old(fs.f)
+//@   ensures C08/success-leaves-an-open-file: err == nil && !specialPath(fs) ==> fs.f != nil && fs.BytesWritten == 0
+//@   ensures unlocked: unchanged("held")
+
+//@ pure sinkFormat(fs *FileSink) string = (fs.Format == "") ? "json" : fs.Format
+
+//@ func (*FileSink).Process(_, e) (out, err)
+//@   requires fs != nil && e != nil && held(fs.l) == 0 && held(e.l) == 0 && fs.MaxFiles >= 0 && fs.BytesWritten >= 0
+//@   ensures C13/sinks-forward-nothing: out == nil
+//@   ensures C13/dev-null-accepts-without-effect: fs.Path == "/dev/null" ==> err == nil && ev_n == old(ev_n)
+//@   ensures C13/unformatted-event-is-an-error-without-effect: fs.Path != "/dev/null" && !(old(e.Formatted) != nil && old(sinkFormat(fs) in e.Formatted)) ==> err != nil && ev_n == old(ev_n)
+//@   ensures C08+C13/success-means-the-configured-bytes-were-written-last-and-in-full: fs.Path != "/dev/null" && err == nil ==> ev_n > old(ev_n) && ev_kind(ev_n - 1) == "sys:write" && ev_a(ev_n - 1, 1) == arr(old(e.Formatted[sinkFormat(fs)])) && ev_a(ev_n - 1, 3) == len(old(e.Formatted[sinkFormat(fs)])) && ev_a(ev_n - 1, 5) == len(old(e.Formatted[sinkFormat(fs)])) && ev_a(ev_n - 1, 6) == 0
+//@   ensures C13/special-streams-are-written-without-touching-files: (fs.Path == "/dev/stdout" || fs.Path == "/dev/stderr") ==> (forall i int :: old(ev_n) <= i && i < ev_n ==> ev_kind(i) == "sys:write") && fs.f == old(fs.f)
+//@   ensures C08/writes-go-to-the-active-file: fs.Path != "/dev/null" && !specialPath(fs) && err == nil ==> ev_a(ev_n - 1, 0) == fs.f && fs.f != nil
+//@   ensures C15/bytes-counted-after-a-first-successful-write: fs.Path != "/dev/null" && err == nil && events("sys:write") == old(events("sys:write")) + 1 && !(fs.Path == "/dev/stdout" || fs.Path == "/dev/stderr") ==> fs.BytesWritten >= ev_a(ev_n - 1, 5)
+//@   ensures C08/at-most-two-write-attempts: events("sys:write") <= old(events("sys:write")) + 2
+//@   ensures unlocked: unchanged("held")
